@@ -517,8 +517,14 @@ func redactPipelineStage(stage interface{}, redactFieldNames bool, keyPath []str
 									continue
 								case Pipeline:
 									if arr, ok := subV.([]any); ok {
-										isSelectivelyRedactable := isRedactableFieldPatternInArray(arr)
-										newSubMap.Set(subK, redactArrayValues(arr, redactFieldNames, inSearchStage, isSelectivelyRedactable, newKeyPath))
+										// a sub-pipeline ($lookup.pipeline, $unionWith.pipeline, ...): walk its stages like
+										// the stages of the main pipeline, so that their operator tables (namespaces,
+										// exempt parameters, field names) apply at any depth
+										newPipeline := make([]any, len(arr))
+										for i, subStage := range arr {
+											newPipeline[i] = redactPipelineStage(subStage, redactFieldNames, []string{}, isInSearchStage(subStage))
+										}
+										newSubMap.Set(subK, newPipeline)
 									} else if _, isKeyword := subV.(string); isKeyword {
 										newSubMap.Set(subK, subV)
 									} else {
